@@ -110,10 +110,14 @@ def check_collapse(col, c, ds, conf):
                     raise AssertionError("collapser functions of an EARLIER call appear in a default call")
                 # float32 data: the statistics are those of the values (offset 2^23), not single-precision roundings of them
                 m32 = r["secondary/bt32_mean"].values
+                # (the mean may be rounded to single precision - half a unit at 2^23 -, the SPREAD of the values is a small
+                #  number that any sound computation gets right to many digits, whatever the offset)
                 d32 = np.asarray(m32, dtype=float) - 8388608.0
-                if d32.shape != mean.shape or not np.all((np.abs(d32 - mean) <= 1e-6) | (np.isnan(d32) & np.isnan(mean))) \
-                        or not same(r["secondary/bt32_number"].values, num):
-                    raise AssertionError("float32 variable: mean/number disagree with the same data in float64")
+                s32 = np.asarray(r["secondary/bt32_std"].values, dtype=float)
+                if d32.shape != mean.shape or not np.all((np.abs(d32 - mean) <= 0.5 + 1e-6) | (np.isnan(d32) & np.isnan(mean))) \
+                        or not same(r["secondary/bt32_number"].values, num) \
+                        or (ref != "primary" and not np.all((np.abs(s32 - std) <= 1e-3 * np.abs(std) + 1e-6) | (np.isnan(s32) & np.isnan(std)))):
+                    raise AssertionError("float32 variable: mean/std/number disagree with the same data in float64")
                 if ref == "primary":
                     # longwave = 2 * bt + 1 element-wise, so every statistic of it is determined by the one of bt
                     f1, f2 = r["secondary/bt_first"].values, r["secondary/longwave_first"].values
